@@ -121,7 +121,7 @@ func addScalars(context Context, target *CandidateNode, lhs *CandidateNode, rhs 
 		}
 		sum := lhsNum + rhsNum
 		target.Tag = lhs.Tag
-		target.Value = fmt.Sprintf(format, sum)
+		target.Value = formatInt64(format, sum)
 	} else if (lhsTag == "!!int" || lhsTag == "!!float") && (rhsTag == "!!int" || rhsTag == "!!float") {
 		lhsNum, err := strconv.ParseFloat(lhs.Value, 64)
 		if err != nil {
